@@ -227,12 +227,34 @@ def columns(db, ctx):
                 if not c or c[0] not in ("Eq", "Ne"):
                     continue
                 sides = [nf(c[1]), nf(c[2])]
+                # a side that is the parameter of a local closure stands for what that closure is called with
+                from ..origins import index as _oix
+                bd_ = _oix(db).bindings(w)
+                for si_, sx in enumerate((c[1], c[2])):
+                    px_ = peel_casts(sx)
+                    b_ = bd_.get(px_.get("lid")) if px_.get("k") == "Path" else None
+                    if b_ and b_[0] == "closure-param":
+                        clo_ = b_[2]
+                        holder = [lid_ for lid_, bb in bd_.items() if bb[0] == "let" and bb[1] is not None and peel(bb[1]) is clo_]
+                        for cc, _ in walk(w.hir):
+                            if cc.get("k") == "Call" and peel(cc.get("f") or {}).get("lid") in holder and b_[1] < len(cc["args"]):
+                                sides[si_] = nf(cc["args"][b_[1]])
                 if not (any(s_.endswith(".index()") for s_ in sides) and "(morphemes.len() - 1)" in sides):
                     continue
                 at_last, not_last = (n_["then"], n_["else"]) if c[0] == "Eq" else (n_["else"], n_["then"])
                 trailer_ok = "sentence_separator" in render(at_last) and "word_separator" not in render(at_last) and \
                     "word_separator" in render(not_last) and "sentence_separator" not in render(not_last)
-        second_trailer = len(writes) == 2 and mentions_x(writes[1]["args"][0], lambda x: x.get("k") == "If")
+        def _is_trailer(e):
+            if mentions_x(e, lambda x: x.get("k") == "If"):
+                return True
+            # ... or the result of a local closure whose body is that `if`
+            for x, _ in walk_x_(e):
+                if x.get("k") == "Call" and peel(x.get("f") or {}).get("k") == "Path":
+                    b2 = _oix(db).bindings(w).get(peel(x["f"]).get("lid"))
+                    if b2 and b2[0] == "let" and b2[1] is not None and peel(b2[1]).get("k") == "Closure" and mentions_x(peel(b2[1])["body"], lambda y: y.get("k") == "If"):
+                        return True
+            return False
+        second_trailer = len(writes) == 2 and _is_trailer(writes[1]["args"][0])
         okw = [m for m, _ in ch] == ["iter"] and nf(base) == "morphemes" and first_surface and trailer_ok and second_trailer
         why = "iter=%s surface-first=%s trailer-by-last-index=%s trailer-written-second=%s" % ([m for m, _ in ch], first_surface, trailer_ok, second_trailer)
     # an empty list still produces a line terminator
